@@ -591,12 +591,12 @@ def gen_xz_files(rng, count, lz2_pool, checks=(0, 1, 4)):
             if all_empty or rng.chance(1, 8):
                 s = {'bytes': b'\x00', 'out': b''}              # an empty block: legal, with or without the optional size fields (unpacked size 0)
             width = rng.choice([None, None, None, 2, 3, 5, 9])
-            hp = rng.choice([0, 0, 0, 1, 2, 7, 40, 200, 'max']) if width is None else rng.choice([0, 1])
+            hp = rng.choice([0, 0, 0, 1, 2, 7, 40, 200, 'max']) if width is None else rng.choice([0, 1, 1, 40, 'max'])
             wp, wu = rng.chance(1, 2), rng.chance(1, 2)
             blk = None
             # 'max': the largest padding that fits, i.e. the header size byte 0xFF (1024-byte header)
             dprop = bytes([rng.choice([0, 1, 22, 37, 38, 39, 40, 40, rng.range(0, 40)])])      # LZMA2 dictionary-size byte: 0 .. 40 are all legal
-            for hp_ in ([253, 252, 251, 250, 249] if hp == 'max' else [hp]):
+            for hp_ in ([253, 252, 251, 250, 249, 248, 247, 246, 245, 244, 243] if hp == 'max' else [hp]):
                 try:
                     blk = XzBlock(s['bytes'], s['out'], with_packed=wp, with_unpacked=wu, header_pad=hp_, mb_width=width, props=dprop)
                     xz_block_bytes(blk, check)
@@ -654,6 +654,13 @@ def run_C03(ck):
         ck_ = rng.choice([0, 1, 4])
         cases.append({'line': 'xz_dec in=%s' % hx(xz_file([blk], ck_)), 'meta': {'filters': nf, 'check': ck_}, 'oracle': exact_oracle(s['out']), 'nontrivial': True})
         ck.count('chained_filters_%d' % nf)
+    for nf in (2, 3):          # chained filters around an EMPTY block, with each check type
+        payload = b'\x00'
+        for _ in range(nf - 1): payload = lzma2_raw(payload)
+        for ck_ in (0, 1, 4):
+            blk = XzBlock(payload, b'', nfilters=nf, with_unpacked=rng.chance(1, 2))
+            cases.append({'line': 'xz_dec in=%s' % hx(xz_file([blk, blk], ck_)), 'meta': {'filters': nf, 'check': ck_, 'empty': True}, 'oracle': exact_oracle(b''), 'nontrivial': True})
+            ck.count('chained_filters_empty')
     run_both(ck, cases)
     for c in cases:
         ck.note_case(c['line'], c['nontrivial'])
@@ -1419,11 +1426,19 @@ def run_C10(ck):
         ms = sorted(set(x for x in [0, 1, need - 1, need, need + 1, dict_eff - 1, dict_eff, dict_eff + 1, T, 1 << 40] if x >= 0))
         for m in (ms if not quick else [rng.choice(ms) for _ in range(4)] + [need, need - 1 if need else 0]):
             meta = {'need': need, 'dict': dict_eff, 'T': T, 'm': m, 'valid': valid}
+            # the limit together with the other options: a caller-supplied size (second / third header option), allow_incomplete
+            size_ = 'none' if s['style'] == 'marker' else str(T)
+            okind = rng.choice(['rfh', 'rfh', 'rhp', 'up']) if valid else 'rfh'
+            if okind == 'rfh': opt_, d_ = 'rfh', data
+            elif okind == 'rhp': opt_, d_ = 'rhp:' + size_, data[:5] + junk_field(rng) + data[13:]
+            else: opt_, d_ = 'up:' + size_, data[:5] + data[13:]
+            meta['opt'] = opt_
             if rng.chance(2, 3):
-                cases.append({'line': 'lzma_dec opt=rfh mem=%d in=%s' % (m, hx(data)), 'meta': meta, 'base': base, 'true_out': s['out']})
+                cases.append({'line': 'lzma_dec opt=%s mem=%d in=%s' % (opt_, m, hx(d_)), 'meta': meta, 'base': base, 'true_out': s['out']})
             else:
-                lens = chunkings(rng, len(data), rng.choice(['whole', 'random', 'single']))
-                cases.append({'line': 'stream opt=rfh mem=%d calls=%s' % (m, stream_calls(data, lens)), 'meta': meta, 'base': base, 'true_out': s['out'], 'stream': True})
+                lens = chunkings(rng, len(d_), rng.choice(['whole', 'random', 'single']))
+                allow_ = 1 if (okind == 'rfh' and valid and rng.chance(1, 3)) else 0
+                cases.append({'line': 'stream opt=%s mem=%d allow=%d calls=%s' % (opt_, m, allow_, stream_calls(d_, lens)), 'meta': meta, 'base': base, 'true_out': s['out'], 'stream': True})
             ck.count('m_vs_need_' + ('lt' if m < need else 'eq' if m == need else 'gt'))
     # the raw decoder takes the limit as a constructor argument; tiny dictionaries make need = dict after a few bytes
     raw = []
